@@ -77,9 +77,11 @@ def generate(rng, index: int, tier: str) -> dict:
         if not sock and rng.random() < 0.35:
             # the heartbeat instant falls inside a shutdown that cannot finish at once: unflushed bytes under flow control,
             # the transport only goes away when the peer resets it
-            t_s = 300.0 * k - 1.0
-            tl.append({"at": t_s - 2.0, "op": "net.stall", "on": True})
-            tl.append({"at": t_s - 1.5, "op": "user.api", "target": ["at"], "call": "check_for_updates", "args": {}})
+            # ... or the heartbeat's own write is the one that is held when shutdown() is called (shutdown 5 s after the tick)
+            t_s = 300.0 * k + rng.choice([-1.0, -1.0, 5.0])
+            t_b = 300.0 * k - 3.0
+            tl.append({"at": t_b, "op": "net.stall", "on": True})
+            tl.append({"at": t_b + 0.5, "op": "user.api", "target": ["at"], "call": "check_for_updates", "args": {}})
             tl.append({"at": t_s + rng.choice([3.0, 12.0, 40.0]), "op": "net.rst"})
             tl.append({"at": t_s + 50.0, "op": "net.stall", "on": False})
             info["heartbeat_during_slow_close"] = True
